@@ -222,6 +222,39 @@ def classify_test(fn, n):
     return None
 
 
+def _predicate_tests(g, n, depth=0):
+    """tests that hold when the expression n of predicate function g is true: conjuncts that classify_test
+    understands, looking through && and through calls to further one-return predicates of the same unit"""
+    out = []
+    n = g.strip(n)
+    nd = g.nodes[n]
+    if depth > 6:
+        return out
+    if nd["k"] == "bin" and nd["o"] == "&&":
+        out += _predicate_tests(g, nd["c"][0], depth + 1)
+        out += _predicate_tests(g, nd["c"][1], depth + 1)
+        return out
+    if nd["k"] == "bin" and nd["o"] == "!=" and g.const_val(nd["c"][1]) == 0:
+        return _predicate_tests(g, nd["c"][0], depth + 1)
+    ct = classify_test(g, n)
+    if ct:
+        out.append(ct)
+        return out
+    if nd["k"] == "call" and nd.get("o"):
+        h = g.unit.functions.get(nd["o"])
+        if h is not None and h.blocks and h is not g:
+            rets = [h.strip(x["c"][0]) for x in h.nodes if x["k"] == "ret" and x.get("c")]
+            if len(rets) == 1:
+                args = nd["c"][1:]
+                for (x, test, tpol) in _predicate_tests(h, rets[0], depth + 1):
+                    xn = h.nodes[x]
+                    if xn["k"] == "ref" and xn.get("d") in h.params:
+                        ai = h.params.index(xn["d"])
+                        if ai < len(args):
+                            out.append((g.strip(args[ai]), test, tpol))
+    return out
+
+
 class KindAnalysis:
     """forward dataflow over one function.
 
@@ -481,6 +514,28 @@ class KindAnalysis:
             s2 = self.refine_cond(dict(state), c[0], not pol, depth + 1)
             s2 = self.refine_cond(s2, c[1], pol, depth + 1)
             return self.join_states(s1, s2)
+        if k == "call" and nd.get("o") and depth < 20:
+            # a predicate helper of the same unit: `int p(sexp x, ..) { return <tests on x> ; }` - its truth implies
+            # what its single return expression implies about the corresponding argument (true branch only: the
+            # expression may contain further conjuncts the caller does not see)
+            g = fn.unit.functions.get(nd["o"])
+            if pol and g is not None and g.blocks and g is not fn and (g.ret_type or "") in ("int", "_Bool", "char", "long"):
+                rets = [g.strip(x["c"][0]) for x in g.nodes if x["k"] == "ret" and x.get("c")]
+                if len(rets) == 1:
+                    args = c[1:]
+                    for (x, test, tpol) in _predicate_tests(g, rets[0]):
+                        xn = g.nodes[x]
+                        if xn["k"] == "ref" and xn.get("d") in g.params and tpol:
+                            ai = g.params.index(xn["d"])
+                            if ai < len(args):
+                                a = fn.strip(args[ai])
+                                cur = self.user_origin(a, state)
+                                if cur is not None:
+                                    new = m.refine(cur, test, True)
+                                    if not new:
+                                        return None
+                                    self.track(state, a, new)
+            return state
         if k == "ref" and "d" in nd and fn.type(cond) != tables.SEXP_T:
             fl = state.get("?" + fn.vars[nd["d"]]["n"])
             if fl and len(fl) == 1:
